@@ -20,6 +20,10 @@ Theorem C07_src_rejected_answer_gets_no_accept :
     src_tag_events Pay empty_pay name method (src_regularize Pay m) = map (tag_event Pay method) (src_regularize Pay m).
 Proof. exact @src_rejected_answer_gets_no_accept. Qed.
 
+Theorem C07_src_find_mapping_name_is_model_find_mapping :
+  forall (keys : list string) (target : string), src_find_mapping_name keys target = find_mapping_keys keys target.
+Proof. exact @src_find_mapping_name_is_find_mapping_keys. Qed.
+
 Theorem C07_src_message_signature_is_model_msig :
   forall name method : string, src_message_signature name method = msig name method.
 Proof. exact @src_message_signature_is_msig. Qed.
@@ -35,6 +39,7 @@ Proof. exact @src_local_is_local_addr. Qed.
 Print Assumptions C07_src_regularize_is_model_regularize.
 Print Assumptions C07_src_tag_events_is_model_tag_events.
 Print Assumptions C07_src_rejected_answer_gets_no_accept.
+Print Assumptions C07_src_find_mapping_name_is_model_find_mapping.
 Print Assumptions C07_src_message_signature_is_model_msig.
 Print Assumptions C07_src_resolve_address_is_model_resolve.
 Print Assumptions C07_src_local_is_model_local_addr.
